@@ -287,8 +287,8 @@ pub struct TemplateField {
 pub struct OptionsData {
     // Scope Data
     #[nom(
-        PreExec = "let template = parser.options_templates.get(&flowset_id).cloned().unwrap_or_default();",
-        PreExec = "let mut field = template.scope_fields.iter();",
+        PreExec = "let template = parser.options_templates.get(&flowset_id);",
+        PreExec = "let mut field = template.map(|t| t.scope_fields.as_slice()).unwrap_or_default().iter();",
         Parse = "many0(complete( { |i|
                        ScopeDataField::parse(i, field.next().ok_or(
                          NomErr::Error(NomError::new(i, ErrorKind::Fail)
@@ -299,8 +299,8 @@ pub struct OptionsData {
     pub scope_fields: Vec<ScopeDataField>,
     // Options Data Fields
     #[nom(
-        PreExec = "let template = parser.options_templates.get(&flowset_id).cloned().unwrap_or_default();",
-        PreExec = "let mut field = template.option_fields.iter();",
+        PreExec = "let template = parser.options_templates.get(&flowset_id);",
+        PreExec = "let mut field = template.map(|t| t.option_fields.as_slice()).unwrap_or_default().iter();",
         Parse = "many0(complete( { |i|
                         OptionDataField::parse(i, field.next().ok_or(
                             NomErr::Error(NomError::new(i, ErrorKind::Fail))
@@ -387,7 +387,7 @@ impl ScopeDataField {
 pub struct Data {
     // Data Fields
     #[nom(
-        Parse = "{ |i| FieldParser::parse(i, parser.templates.get(&flowset_id).cloned().unwrap_or_default()) }"
+        Parse = "{ |i| FieldParser::parse(i, parser.templates.get(&flowset_id)) }"
     )]
     pub fields: Vec<BTreeMap<usize, V9FieldPair>>,
     #[serde(skip_serializing)]
@@ -478,24 +478,28 @@ impl FieldParser {
     /// # Errors
     ///
     /// The function will return an error if any record fails to be parsed according to the template.
-    fn parse(
-        input: &[u8],
-        template: Template,
-    ) -> IResult<&[u8], Vec<BTreeMap<usize, V9FieldPair>>> {
-        let total_size = usize::from(template.get_total_size());
-        if total_size == 0 {
-            // A template whose fields add up to zero bytes cannot describe a data record.
-            return Err(NomErr::Error(NomError::new(input, ErrorKind::Verify)));
-        }
+    fn parse<'a>(
+        input: &'a [u8],
+        template: Option<&Template>,
+    ) -> IResult<&'a [u8], Vec<BTreeMap<usize, V9FieldPair>>> {
+        // The cached template is borrowed: cloning it once per data flowset (and once per
+        // record) made the cost of a packet depend on the size of the cached template
+        // instead of on the bytes received.
+        let total_size = template.map_or(0, |t| usize::from(t.get_total_size()));
+        let template = match template {
+            Some(template) if total_size > 0 => template,
+            // No template, or one whose fields add up to zero bytes, cannot describe a data record.
+            _ => return Err(NomErr::Error(NomError::new(input, ErrorKind::Verify))),
+        };
         let record_count = input.len().saturating_div(total_size);
 
         let mut remaining = input;
         let mut fields = Vec::new();
         for _ in 0..record_count {
             // A record that does not decode leaves `remaining` where it was, so every further
-            // attempt would fail in the same way: stop instead of retrying (and cloning the
-            // template) once per remaining iteration.
-            match Self::parse_data_field(remaining, template.clone()) {
+            // attempt would fail in the same way: stop instead of retrying once per remaining
+            // iteration.
+            match Self::parse_data_field(remaining, template) {
                 Ok((new_remaining, data_field)) => {
                     remaining = new_remaining;
                     fields.push(data_field);
@@ -527,10 +531,10 @@ impl FieldParser {
     /// # Errors
     ///
     /// The function returns an error if parsing any individual field fails according to its type-defined parser.
-    fn parse_data_field(
-        mut input: &[u8],
-        template: Template,
-    ) -> IResult<&[u8], BTreeMap<usize, V9FieldPair>> {
+    fn parse_data_field<'a>(
+        mut input: &'a [u8],
+        template: &Template,
+    ) -> IResult<&'a [u8], BTreeMap<usize, V9FieldPair>> {
         let mut data_field = BTreeMap::new();
 
         for (field_index, template_field) in template.fields.iter().enumerate() {
